@@ -76,16 +76,41 @@ func loadGen(repo, specDir string) (*Gen, error) {
 // verifyUnits generates and solves the given contracts in parallel. Each unit
 // gets its own sort registry so that queries stay small.
 func verifyUnits(g *Gen, cts []*Contract, cfg SolverCfg) []*UnitResult {
-	results := make([]*UnitResult, len(cts))
+	var results []*UnitResult
 	// generation is sequential (shared registries are not thread-safe); solving is parallel
 	var wg sync.WaitGroup
 	sem := make(chan struct{}, 16)
-	for i, ct := range cts {
+	type job struct {
+		ct   *Contract
+		inst *ssa.Function
+	}
+	var jobs []job
+	for _, ct := range cts {
+		fn := g.findFunc(ct.Pkg, ct.Func)
+		if fn != nil && fn.TypeParams().Len() > 0 && !ct.Trusted {
+			var insts []*ssa.Function
+			for f := range ssautil.AllFunctions(g.prog) {
+				if f.Origin() == fn && len(f.TypeArgs()) > 0 && f.Blocks != nil {
+					insts = append(insts, f)
+				}
+			}
+			sort.Slice(insts, func(i, j int) bool { return insts[i].String() < insts[j].String() })
+			for _, f := range insts {
+				jobs = append(jobs, job{ct, f})
+			}
+			if len(insts) > 0 {
+				continue
+			}
+		}
+		jobs = append(jobs, job{ct, nil})
+	}
+	for _, jb := range jobs {
 		g.reg = NewSortReg()
-		r := g.VerifyUnit(ct)
+		r := g.VerifyUnit(jb.ct, jb.inst)
+		r.ct = jb.ct
 		// freeze the registry used by this unit
 		r.reg = g.reg
-		results[i] = r
+		results = append(results, r)
 		wg.Add(1)
 		go func(r *UnitResult) {
 			defer wg.Done()
